@@ -429,10 +429,12 @@ func (w *world) waitFwd() fwdResult {
 
 // closeProxySide closes, on the proxy peer, the session whose remote address is the given
 // client address; Session.Close waits for the handlers of that session to return.
-func (w *world) closeProxySide(clientAddr string) {
+func (w *world) closeProxySide(clientAddr string) { w.closeServerSide(w.proxyP, clientAddr) }
+
+func (w *world) closeServerSide(peer erpc.Peer, clientAddr string) {
 	var target erpc.Session
 	WaitUntil(longWait, func() bool {
-		w.proxyP.RangeSession(func(s erpc.Session) bool {
+		peer.RangeSession(func(s erpc.Session) bool {
 			if s.RemoteAddr().String() == clientAddr {
 				target = s
 				return false
@@ -477,7 +479,7 @@ func fwdVal(r fwdResult) string {
 var opKinds = []string{
 	"call_ok", "call_ok_secure", "call_404", "call_badbody", "call_panic", "call_custom",
 	"call_404_json", "call_404_pb", "call_404_http", "call_panic_json", "call_panic_pb", "call_panic_http",
-	"call_404_ws", "call_panic_ws", "ws_handshake_panic",
+	"call_404_ws", "call_panic_ws", "ws_handshake_panic", "push_404",
 	"closed_call", "closed_push", "dial_fail", "mtype_405", "unprepared", "write_failed",
 	"proxy_call_up", "proxy_call_up_404", "proxy_call_up_panic", "proxy_call_up_1xx", "proxy_push_up",
 	"proxy_call_down", "proxy_push_down", "proxy_call_dying",
@@ -619,6 +621,18 @@ func (w *world) run(kind string, cfg *RunCfg, tag string) (r opResult) {
 		}
 		c.Close()
 		r.obs = triple{nil_: true}
+	case "push_404":
+		// a PUSH nobody handles: the serving side only logs statNotFound
+		s, stat := w.plainCli.Dial(w.bl.Addr)
+		if !stat.OK() {
+			abort("dial: %v", stat)
+		}
+		st := s.Push("/nobody/listens", "p"+tag)
+		// a CALL on the same session is read after the PUSH; Close then waits for both handlers
+		s.Call("/math/add", &AddArg{A: 1, B: 1}, &res)
+		w.closeServerSide(w.backend, s.LocalAddr().String())
+		s.Close()
+		r.obs, r.held = tripleOf(st), st
 	case "unprepared":
 		st := w.directSess().(erpc.PreSession).PreSend(erpc.TypePush, "/note/tell", "x", nil)
 		r.obs, r.held = tripleOf(st), st
